@@ -696,11 +696,32 @@ def resolver_details(F):
     # retain_end: false for matches, true again for Else
     pa = F.one_fn(name="plan_resolution_block_alt")
     r.analysed.append(pa["path"])
-    asg = [(snippet(_repo(), pa["file"], n["sp"])) for n in walk(pa["body"]) if n.get("k") == "Assign" and "retain_end" in (place_path(n["lhs"]) or "")]
-    ok = asg == ["*retain_end=false", "*retain_end=true"]
-    r.ob(ok, {"retain_end writes": asg})
+    # decided by cases on the operator (shape-independent): after the call retain_end is false for Block/Loop/If, true for
+    # Else, untouched for every other operator
+    from vlib.paths import variant_case
+    OPA = "wasmparser::Operator"
+    subj = {pm["pat"]["hid"] for pm in pa.get("params", []) if OPA in (pm.get("ty") or "") and pm["pat"].get("k") == "Binding"}
+    want = {"Block": "false", "Loop": "false", "If": "false", "Else": "true", "Nop": None}
+    outcome = {}
+    for v_, w_ in want.items():
+        dec, sel, val = variant_case(F, pa, subj, OPA, v_)
+
+        def clf(n, val=val):
+            if n.get("k") == "Assign" and "retain_end" in (place_path(n["lhs"]) or ""):
+                b_ = val(n["rhs"])
+                return "RE:%s" % ("true" if b_ is True else "false" if b_ is False else "?")
+            return None
+        finals = set()
+        for ev, st_ in paths(pa["body"], clf, decide_if=dec, select_arms=sel):
+            if st_ == "panic":
+                continue
+            res = [e for e in ev if e.startswith("RE:")]
+            finals.add(res[-1][3:] if res else None)
+        outcome[v_] = finals
+    ok = all(outcome[v_] == {w_} for v_, w_ in want.items())
+    r.ob(ok, {"retain_end after the call, by operator": {k: sorted(map(str, v)) for k, v in outcome.items()}})
     if not ok:
-        r.violate("%s | retain_end" % pa["path"], F.loc(pa), "retain_end writes are %s (expected false on a match, then true again for Else)" % asg)
+        r.violate("%s | retain_end" % pa["path"], F.loc(pa), "retain_end after plan_resolution_block_alt is %s (expected false for block/loop/if, true for else, unchanged otherwise): the matching `end` of a replaced construct is kept or removed wrongly" % {k: sorted(map(str, v)) for k, v in outcome.items()})
     return r
 
 
@@ -840,6 +861,17 @@ def dead_after_sink(F):
     return r
 
 
+def _push_list_field(c):
+    """for `X.flagged.push(..)` / `X.not_flagged.push(..)` (whatever X is: a place, a call result, ..) → the list name"""
+    if c.get("k") == "MethodCall" and c["method"] in ("push", "extend", "append"):
+        rv = c["recv"]
+        while isinstance(rv, dict) and rv.get("k") in ("AddrOf", "Unary", "Index"):
+            rv = rv.get("a") or rv.get("base")
+        if isinstance(rv, dict) and rv.get("k") == "Field" and rv["name"] in ("flagged", "not_flagged"):
+            return rv["name"]
+    return None
+
+
 # ---------------------------------------------------------------- R-SAVE-SIBLINGS
 def save_siblings(F):
     """entry().and_modify(push into list L).or_insert(literal): the literal must be the singleton of what and_modify pushes —
@@ -857,22 +889,18 @@ def save_siblings(F):
             continue
         pushes = set()
         for c in walk(fn["body"]):
-            if c.get("k") == "MethodCall" and c["method"] in ("push", "extend", "append"):
-                pp = place_path(c["recv"]) or ""
-                for fld in ("flagged", "not_flagged"):
-                    if pp.endswith("." + fld):
-                        pushes.add(fld)
+            lf_ = _push_list_field(c)
+            if lf_:
+                pushes.add(lf_)
         # helpers called from and_modify closures count too (save_not_flagged…_inner)
         for c in walk(fn["body"]):
             if c.get("k") == "Call" and (c.get("callee") or "") in F.by_path:
                 t = F.by_path[c["callee"]][0]
                 if t.get("body") and any(x.get("k") == "Struct" and (x.get("adt") or "").endswith(ITI) for x in walk(t["body"])):
                     for cc in walk(t["body"]):
-                        if cc.get("k") == "MethodCall" and cc["method"] in ("push", "extend", "append"):
-                            pp = place_path(cc["recv"]) or ""
-                            for fld in ("flagged", "not_flagged"):
-                                if pp.endswith("." + fld):
-                                    pushes.add(fld)
+                        lf_ = _push_list_field(cc)
+                        if lf_:
+                            pushes.add(lf_)
         body_params = {p["pat"].get("hid") for p in fn.get("params", []) if "Operator" in (p.get("ty") or "") and "Vec" in (p.get("ty") or "")}
         if not pushes or not body_params:
             continue
@@ -895,14 +923,14 @@ def save_siblings(F):
         has_map = any("InstrToInject" in (pm.get("ty") or "") and "HashMap" in (pm.get("ty") or "") for pm in fn.get("params", []))
         has_body = any("Operator" in (pm.get("ty") or "") and "Vec" in (pm.get("ty") or "") for pm in fn.get("params", []))
         files_directly = any((x.get("k") == "Struct" and (x.get("adt") or "").endswith("InstrToInject") and "rest" not in x and any(isinstance(f_, list) and isinstance(f_[1], dict) and f_[1].get("k") not in ("Binding", "Wild") for f_ in x.get("fields", []))) or
-                             (x.get("k") == "MethodCall" and x["method"] == "push" and (place_path(x["recv"]) or "").endswith(("flagged", "not_flagged")))
+                             _push_list_field(x) is not None
                              for x in walk(fn["body"]))
         calls_filer = any(x.get("k") == "Call" and (x.get("callee") or "").endswith("_inner") for x in walk(fn["body"]))
         if has_map and has_body and (files_directly or (calls_filer and not any("Operator<" in (pm.get("ty") or "") and "Vec" not in (pm.get("ty") or "") for pm in fn.get("params", [])))):
             helpers.append(fn)
     r.count("save_helpers", len(helpers))
-    if len(helpers) < 3:
-        raise CheckError("expected the three save_* helpers (pending map + body parameters), found %d" % len(helpers))
+    if len(helpers) < 2:
+        raise CheckError("expected the save_* helpers (pending map + body parameters: one for flag-guarded, one for unconditional bodies), found %d" % len(helpers))
     for fn in helpers:
         if fn["path"] not in r.analysed:
             r.analysed.append(fn["path"])
@@ -931,6 +959,18 @@ def save_siblings(F):
         r.ob(ok, {"helper": fn["name"], "stores_on_every_path": ok})
         if not ok:
             r.violate("%s | may drop body" % fn["path"], F.loc(fn), "%s %s" % (fn["name"], why))
+        # (a') which list: a helper that is given a flag local files flag-guarded bodies, one without files unconditional ones
+        has_flag_param = any("LocalID" in (pm.get("ty") or "") for pm in fn.get("params", []))
+        lists = {_push_list_field(c) for c in walk(fn["body"])} - {None}
+        for c in walk(fn["body"]):
+            if c.get("k") == "Call" and (c.get("callee") or "") in F.by_path and F.by_path[c["callee"]][0] is not fn:
+                lists |= {_push_list_field(x) for x in walk(F.by_path[c["callee"]][0].get("body") or {})} - {None}
+        if lists:
+            want_l = {"flagged"} if has_flag_param else {"not_flagged"}
+            okl = lists == want_l
+            r.ob(okl, {"helper": fn["name"], "given_a_flag": has_flag_param, "pushes_to": sorted(lists)})
+            if not okl:
+                r.violate("%s | wrong list %s" % (fn["path"], "+".join(sorted(lists))), F.loc(fn), "%s is %sgiven a flag local but files the body under %s" % (fn["name"], "" if has_flag_param else "not ", sorted(lists)))
         # (b) no wholesale insert into a pending map of maps: it replaces what other modes already filed for the block
         for c in walk(fn["body"]):
             if c.get("k") == "MethodCall" and c["method"] == "insert" and "HashMap<u32, std::collections::HashMap" in (c.get("recv_ty") or "").replace("&mut ", ""):
@@ -981,7 +1021,47 @@ def if_chain(F):
     # later ones the other) by labelling the branch and filtering
     first_hids = {st["pat"]["hid"] for st in walk(rb["body"]) if st.get("k") == "Let" and st["pat"].get("k") == "Binding" and st["pat"].get("ty") == "bool" and peel(st.get("init") or {}).get("lit") == "Bool(true)"}
 
+    # the same protocol written with enumerate(): `pos == 0` / `pos != 0` / `pos > 0`, directly or through a bool local
+    idx_hids = set()
+    for m_ in walk(rb["body"]):
+        if m_.get("k") == "Match" and m_.get("src") == "ForLoopDesugar" and any(x.get("k") == "MethodCall" and x["method"] == "enumerate" for x in walk(m_["scrut"])):
+            for lp in walk(m_["arms"][0]["body"]):
+                if lp.get("k") == "Match" and lp is not m_:
+                    for arm in lp["arms"]:
+                        if arm["pat"].get("variant") == "Some":
+                            inner = arm["pat"]["pats"][0] if arm["pat"].get("pats") else (arm["pat"]["fields"][0][1] if arm["pat"].get("fields") else {})
+                            if inner.get("k") == "Tuple" and inner["pats"] and inner["pats"][0].get("k") == "Binding":
+                                idx_hids.add(inner["pats"][0]["hid"])
+                    break
+
+    def first_test(c):
+        """+1 if c is true exactly on the first iteration, -1 if true exactly on later ones, 0 if unrelated"""
+        c = peel(c)
+        if c.get("k") == "Unary" and c.get("op") == "!":
+            return -first_test(c["a"])
+        if c.get("k") == "Path" and c.get("res", {}).get("hid") in first_hids:
+            return 1
+        if c.get("k") == "Path" and c.get("res", {}).get("hid") in derived:
+            return derived[c["res"]["hid"]]
+        if c.get("k") == "Binary" and c.get("op") in ("==", "!=", ">"):
+            a_, b_ = peel(c["a"]), peel(c["b"])
+            if a_.get("k") == "Path" and a_.get("res", {}).get("hid") in idx_hids and lit_int(b_.get("lit")) == 0:
+                return 1 if c["op"] == "==" else -1
+        return 0
+
+    derived = {}
+    for st in walk(rb["body"]):
+        if st.get("k") == "Let" and st["pat"].get("k") == "Binding" and st["pat"].get("ty") == "bool" and "init" in st:
+            t_ = first_test(st["init"])
+            if t_:
+                derived[st["pat"]["hid"]] = t_
+
     def branch_label(node):
+        t_ = first_test(node["cond"])
+        if t_ == 1:
+            return ("FIRST", "NOTFIRST")
+        if t_ == -1:
+            return ("NOTFIRST", "FIRST")
         c = peel(node["cond"])
         neg = False
         if c.get("k") == "Unary" and c.get("op") == "!":
@@ -1000,11 +1080,7 @@ def if_chain(F):
         if m.get("k") == "Match" and m.get("src") == "ForLoopDesugar":
             cnt = 0
             for n in walk(m):
-                if n.get("k") == "If":
-                    c = peel(n["cond"])
-                    if c.get("k") == "Unary" and c.get("op") == "!":
-                        c = peel(c["a"])
-                    if c.get("k") == "Path" and c.get("res", {}).get("hid") in first_hids:
+                if n.get("k") == "If" and first_test(n["cond"]) != 0:
                         cnt += 1
             tests_per_iter = max(tests_per_iter, cnt)
     n_paths = 0
